@@ -380,6 +380,8 @@ def run(prog: Program, roots=None, prop="C14", rid_prefix="R-C14") -> Results:
         cursor.check(prog, res, "R-C14-8", ("expressions/set.py", "expressions/scope.py", "expressions/source_code.py", "expressions/let.py"), 1)
         lookup_failures(prog, res, f"{rid_prefix}-6")
         positions_are_own(prog, res, f"{rid_prefix}-14")
+        from sa.rules import merge as _merge
+        _merge.check(prog, res, f"{rid_prefix}-15", f"{rid_prefix}-16")  # one tree per attrpath family: what the text shows is what lookups walk
         identity_of_bindings(prog, res, f"{rid_prefix}-7")
     res.tables.append(f"sa/rules/c14.py:REVIEWED_NO_MIRROR ({len(REVIEWED_NO_MIRROR)} entries)")
     return res
